@@ -65,6 +65,11 @@ func drawC07(rt *rapid.T) *Case {
 		{rec(bwild), wild}, {wild, rec(wild)}, {rec(multi(w, w))}, {exists(wild)},
 		{wild, fn("g2", true)}, {rec(wild), fn("g2", true)}, {exists(), fn("g2", true)}, {wild, fn("f1", false)}, {wild, wild, fn("g5", true)},
 		{multi(w, e(k1)), fn("g2", true)}, {exists(wild, fn("g2", true))}, {rec(exists(name(k1))), fn("g2", true), fn("f1", false)},
+		// more names than a small object has members, unsorted, with repeats and absent names
+		{multi(e(k2), e("zz1"), e(k1), e("zz0"), e(k2), e("zz2"))}, {wild, multi(e("z"), e("b"), e("zz"), e("a"), e("b"), e("B"), e("aa"))},
+		{rec(multi(e("z"), e("a"), e("zz3"), e("B"), e("a"), e("zz4")))},
+		// a function that re-enters the parsed function in the middle of a traversal
+		{rec(wild), fn("fre", false)}, {wild, fn("fre", false)}, {rec(name(k1)), fn("fre", false)}, {rec(exists(name(k1))), fn("fre", false)}, {multi(w, e(k1)), fn("fre", false)},
 	}
 	var p *gen.Path
 	if gen.Uniform(rt, "general", 4) == 0 {
@@ -185,9 +190,15 @@ var c07Other = []interface{}{
 func checkC07(c *Case, st *Stats) string {
 	docText := c.Doc.JSON()
 	Journal(c.Check, c.Path, docText, "")
-	f, err := jsonpath.Parse(c.Path, BuildConfig(nil, true, false))
+	rec := &Recorder{}
+	f, err := jsonpath.Parse(c.Path, BuildConfig(rec, true, false))
 	if err != nil {
 		return fmt.Sprintf("generated path was rejected by Parse: %v", err)
+	}
+	reentries := 0
+	rec.Reenter = func() {
+		reentries++
+		_, _ = f(c07Other[reentries%len(c07Other)])
 	}
 	other, _ := jsonpath.Parse("$..*")
 	reps := c.Ints[len(c.Ints)-1]
